@@ -8,6 +8,7 @@
      FN s              FileName(s): str path base name ext dropExt
      FE s e            FileName(s).setExt(e) addExt(e)
      FP a b            FileName(a)+FileName(b), FileName(a)+string b
+     FO a b            a==b a!=b (a-b) conversions-agree default-ctor
      AL arg:k ...      ArgumentList + parseAndRemove, tryConsume = table lookup -> remaining
      AR w k arg...     ArgumentList::remove(w,k)              -> remaining size empty first
      RA w k arg...     removeArgs(ac, av, w, k)               -> ac av[0..ac)
@@ -53,6 +54,11 @@ let () =
       | ["FP"; a; b] ->
         let fa = fn_norm (uh a) and fb = fn_norm (uh b) in
         String.concat " " (List.map hx [fn_plus fa fb; fn_plus_str fa (uh b)])
+      | ["FO"; a; b] ->
+        let fa = fn_norm (uh a) and fb = fn_norm (uh b) in
+        (* == != | a - b | conversions (str, c_str, operator std::string, operator<<) | default constructor *)
+        String.concat " " [(if fn_eq fa fb then "1" else "0"); (if fn_eq fa fb then "0" else "1"); hx (fn_minus fa fb); "1";
+                           (if fn_eq (fn_plus [] fb) fb && fn_eq (fn_norm []) [] then "1" else "0")]
       | "AL" :: args ->
         let prs = List.map (fun a -> match String.split_on_char ':' a with
             | [h; k] -> (uh h, int_of_string k) | _ -> failwith "bad AL arg") args in
